@@ -11,3 +11,8 @@ claim("C05", "exploration", "bounded-exhaustive enumeration of ordered live-rang
       "Every ordered sequence of <=3 live ranges over a 60-item (start,end,size,alignment) lattice (thorough: 160 items, plus depth 4 on the 60-item lattice, iteration and memory limits) is allocated by Greedy, LinearAlloc and HillClimb through their real entry points; an independent O(n^2) oracle decides overlap, alignment, reported total, peak bound, iteration bound and RNG-history independence.",
       "'total equals highest end address' is read as hi <= total <= round_up(hi, alignment); sets with more than 4 ranges are only reached through compiled networks (C12).",
       "DESIGN.md section 4 C05")
+
+claim("C13", "exploration", "bounded-exhaustive enumeration of generated networks x configurations, corner models and CLI option values through the real compiler driver in forked children",
+      "Every network of the grammar up to depth 2 (thorough: larger alphabet, depth-3 chains) x a configuration sub-lattice, every builtin operator as a corner model in several arities/ranks/types, structural corner models and every CLI option value are compiled through vela.main(); the outcome must be an output model that a plain flatbuffer reader parses, or a non-zero status with an Error diagnosis; any escaping exception, hang or death is a violation keyed by its crash site.",
+      "Validity of a generated model is by construction (schema-valid parts); there is no TFLite interpreter in the image to confirm semantic validity, so corner-model crashes are recorded as findings with that qualification. Crash identity = exception type + innermost Vela frame.",
+      "DESIGN.md section 4 C13")
